@@ -39,7 +39,9 @@ def replay(rec):
             for k in range(N):
                 out += [nodes[k] + (nodes[k + 1] - nodes[k]) * j / f for j in range(f)]
             return out + [nodes[-1]]
-        ocp.method(SplineMethod(N=N, grid=FunctionGrid(grid_fun)))
+        # geometric breakpoints through rockit's own GeometricGrid (ratio 2 per interval), uniform ones through UniformGrid
+        from rockit import GeometricGrid, UniformGrid
+        ocp.method(SplineMethod(N=N, grid=GeometricGrid(2, local=True) if sc['g'] == 'geo' else UniformGrid()))
         quiet(lambda: ocp._transcribed)
         opti, vx, vp = _inputs(ocp)
         nx = vx.numel(); pv = np.zeros(vp.numel())
